@@ -26,6 +26,7 @@ def check(ctx):
     repo = ctx.repo
     from . import generic as _gen
     _gen.language_traps(ctx, _gen.anchor_functions(repo, "C11"), "the property holds for every input, on every call")
+    _gen.rank_orders_values(ctx, repo.fn("dataiter.vector.Vector.rank"), "rank is consistent with sort; missing values are ranked last")
     ctx.rule("ORD-3", "argsort sites in Vector.sort/rank use kind='stable'")
     ctx.rule("SIB-na-last", "each exit of sort returns X[~na].concat(X[na]) with na computed from the final X")
     ctx.rule("MPT-rank", "every method branch of rank fills out[~na] and out[na]; unknown methods raise")
@@ -204,6 +205,21 @@ def check(ctx):
                    f"{norm(hashed[0])[:50]} de-duplicates by hash and ==: NaN != NaN and NaT != NaT, so a vector with several missing "
                    f"values keeps all of them (and an all-missing vector is returned whole), where each distinct value -- the missing "
                    f"one included -- is to appear once", clause="unique returns each distinct value once, missing values included")
+        # the array-API spellings np.unique_all / unique_counts / unique_inverse / unique_values fix equal_nan=False
+        api = [c for f, c in calls_in(uniq) if (repo.dotted(f, c.func) or "") in ("numpy.unique_all", "numpy.unique_counts", "numpy.unique_inverse",
+                                                                                "numpy.unique_values")]
+        if api:
+            ctx.ob("ORD-unique", uniq, norm(api[0])[:70], api[0], False,
+                   f"{norm(api[0].func)} is np.unique with equal_nan=False built in: every NaN / NaT counts as a value of its own, so a vector "
+                   f"with several missing values returns the missing value once per occurrence",
+                   clause="unique returns each distinct value once, missing values included")
+            us = api
+    for c in [c for c in us if (repo.dotted(uniq, c.func) or "") == "numpy.unique"]:
+        en = kw(c, "equal_nan")
+        if en is not None and isinstance(en, ast.Constant) and en.value is False:
+            ctx.ob("ORD-unique", uniq, norm(c)[:70], c, False,
+                   "equal_nan=False: every NaN / NaT counts as a value of its own, so several missing values are all returned",
+                   clause="unique returns each distinct value once, missing values included")
     ctx.count("np.unique sites in Vector.unique", len(us), 1)
     for c in us:
         ri = kw(c, "return_index")
